@@ -553,22 +553,57 @@ func runSnapGC(c *Ctx, r *RuleRun) {
 		})
 		r.Check(guarded, fn, "dedupe below the watermark", p.Pos(instrPos(mu)), "only reached for versions at or below readMark.DoneUntil",
 			"versions are deduplicated (dropped) without being known to lie at or below readMark.DoneUntil: an open reader can lose the version it reads")
-		// replacing an existing candidate requires ts > its ts
-		replaces := hasFact(mu, func(cm Cmp) bool {
-			return cm.Op == "true" && cm.Y == nil && isLookupOK(cm.X)
-		})
-		firstSeen := hasFact(mu, func(cm Cmp) bool {
-			return cm.Op == "false" && cm.Y == nil && isLookupOK(cm.X)
-		})
-		if !replaces && !firstSeen {
-			r.Viol(fn, "keep the newest below the watermark", p.Pos(instrPos(mu)), "the candidate kept for a key is overwritten without looking at what is already kept: whichever version comes last in the input (the oldest) survives, readers at the watermark see an older value or a deleted key reappears")
+		// replacing an existing candidate requires ts > its ts: from the "key already has a candidate" edge of the comma-ok
+		// lookup in the same map, no path reaches this update without passing the edge on which the current entry is newer
+		var lookIfs []*ssa.If
+		for _, b := range f.Blocks {
+			if len(b.Instrs) == 0 {
+				continue
+			}
+			if iff, ok := b.Instrs[len(b.Instrs)-1].(*ssa.If); ok {
+				c0 := canonCond(iff.Cond, true)
+				if c0.Y == nil && isLookupOK(c0.X) && c0.X.(*ssa.Extract).Tuple.(*ssa.Lookup).X == mu.Map {
+					lookIfs = append(lookIfs, iff)
+				}
+			}
 		}
-		if replaces {
-			newer := hasFact(mu, func(cm Cmp) bool {
-				return cm.Op == ">" && cm.Y != nil && entryTs(cm.X) && entryTs(cm.Y) && cm.X != cm.Y
-			})
-			r.Check(newer, fn, "keep the newest below the watermark", p.Pos(instrPos(mu)), "an existing candidate is replaced only by a newer version",
-				"among the versions at or below the watermark the one kept is not the newest: readers at the watermark see an older value")
+		if len(lookIfs) == 0 {
+			r.Viol(fn, "keep the newest below the watermark", p.Pos(instrPos(mu)), "the candidate kept for a key is overwritten without looking at what is already kept: whichever version comes last in the input (the oldest) survives, readers at the watermark see an older value or a deleted key reappears")
+			return
+		}
+		for _, lif := range lookIfs {
+			tuple := lif.Cond.(*ssa.Extract).Tuple
+			if u, ok := lif.Cond.(*ssa.UnOp); ok {
+				_ = u
+			}
+			fromKept := func(v ssa.Value) bool { return p.dependsOn(v, func(x ssa.Value) bool { return x == tuple }) }
+			okTrueIdx := 0
+			if canonCond(lif.Cond, true).Op == "false" {
+				okTrueIdx = 1
+			}
+			edgeOK := func(b *ssa.BasicBlock, i int) bool {
+				if b == lif.Block() {
+					return i == okTrueIdx
+				}
+				iff, ok := b.Instrs[len(b.Instrs)-1].(*ssa.If)
+				if !ok {
+					return true
+				}
+				for _, cm := range []Cmp{canonCond(iff.Cond, i == 0), canonCond(iff.Cond, i == 0).Flip()} {
+					if cm.Op == ">" && cm.Y != nil && entryTs(cm.X) && !fromKept(cm.X) && entryTs(cm.Y) && fromKept(cm.Y) {
+						return false // the "current entry is newer" edge: paths through it are fine
+					}
+				}
+				return true
+			}
+			q := PathQuery{P: p, Fn: f, Starts: []ssa.Instruction{lif}, EdgeOK: edgeOK, Target: func(i ssa.Instruction) bool { return i == ssa.Instruction(mu) },
+				Avoid: func(i ssa.Instruction) bool { return i == ssa.Instruction(lif) }}
+			w := q.FindPath()
+			if w != nil {
+				r.Viol(fn, "keep the newest below the watermark", p.Pos(instrPos(mu)), "an existing candidate can be replaced without the current version being newer: among the versions at or below the watermark the one kept is not the newest, readers at the watermark see an older value", p.describePath(w)...)
+			} else {
+				r.Hold(fn, "keep the newest below the watermark", p.Pos(instrPos(mu)), "an existing candidate is replaced only on the edge where the current version is newer")
+			}
 		}
 	})
 	if n == 0 {
@@ -633,37 +668,51 @@ func runSnapDone(c *Ctx, r *RuleRun) {
 			}
 		}
 	}
-	guardFlag := func(f *ssa.Function, effect func(ssa.Instruction) bool, what string) {
+	// every readMark.Done outside initialisation is guarded by one and the same done-flag, which is set afterwards
+	la := c.Locks()
+	isDone := markCalls(p, a.fReadMark, "Done")
+	var common map[*types.Var]bool
+	n := 0
+	for _, f := range p.Funcs {
+		if !hasNonInitRole(la, f) {
+			continue
+		}
 		fn := p.FnName(f)
-		n := 0
 		eachInstr(f, func(ins ssa.Instruction) {
-			if !effect(ins) {
+			if !isDone(ins) {
 				return
 			}
 			n++
-			good := false
+			flags := map[*types.Var]bool{}
 			for _, flag := range boolFlags {
-				g := boolFactIs(ins, func(v ssa.Value) bool { return isLoadOfField(v, flag) }, false)
-				if !g {
+				if !boolFactIs(ins, func(v ssa.Value) bool { return isLoadOfField(v, flag) }, false) {
 					continue
 				}
 				for _, st := range storesToField(f, flag) {
 					if isConstBool(st.Val, true) {
 						q := PathQuery{P: p, Fn: f, Starts: []ssa.Instruction{ins}, Avoid: func(i ssa.Instruction) bool { return i == ssa.Instruction(st) }, Target: isReturn}
 						if q.FindPath() == nil {
-							good = true
+							flags[flag] = true
 						}
 					}
 				}
 			}
-			r.Check(good, fn, what+" exactly once", p.Pos(instrPos(ins)), "guarded by a done-flag of the transaction that is set on every path afterwards",
-				what+" is not guarded by a done-flag that it sets afterwards: it runs twice for a transaction that commits (once in newCommitTs, once from Discard), the read watermark passes transactions that are still open and their versions/conflict records are discarded")
+			if common == nil {
+				common = flags
+			} else {
+				for k := range common {
+					if !flags[k] {
+						delete(common, k)
+					}
+				}
+			}
+			r.Check(len(flags) > 0 && len(common) > 0, fn, "readMark.Done exactly once", p.Pos(instrPos(ins)), "guarded by the transaction's done-flag, which is set on every path afterwards",
+				"readMark.Done is not guarded by the (one) done-flag that it sets afterwards: it runs twice for a transaction that commits (once in newCommitTs, once from Discard), the read watermark passes transactions that are still open and their versions/conflict records are discarded")
 		})
-		if n == 0 {
-			r.Undecided(fn, what, p.Pos(f.Pos()), "effect not found")
-		}
 	}
-	guardFlag(a.doneRead, markCalls(p, a.fReadMark, "Done"), "readMark.Done")
+	if n == 0 {
+		r.Viol("oracle", "readMark.Done", "", "the read mark of a transaction is never finished: version garbage collection and conflict-record cleanup never advance")
+	}
 }
 
 func runSerSection(c *Ctx, r *RuleRun) {
@@ -1277,15 +1326,69 @@ func runTraceMisuse(c *Ctx, r *RuleRun) {
 		}
 		r.Check(ok, fn, "guard "+g.name, p.Pos(f.Pos()), "the buffer is only written when the check passed", "the write buffer can be modified although the transaction is "+g.name+" (misuse has an effect)")
 		ev := p.Global("", g.errVar)
-		found := false
-		eachInstr(f, func(ins ssa.Instruction) {
-			if ret, ok := ins.(*ssa.Return); ok && ev != nil && globalLoaded(retOperand(ret, 0)) == ev {
-				if hasFact(ret, g.failed) {
-					found = true
+		// the documented error is returned on the failing side of the check and never on its passing side: from every
+		// branch edge that establishes "check passed" no return of that error is reachable, and from some edge that
+		// establishes "check failed" one is
+		isErrRet := func(ins ssa.Instruction) bool {
+			ret, ok := ins.(*ssa.Return)
+			return ok && ev != nil && globalLoaded(retOperand(ret, 0)) == ev
+		}
+		found, wrongSide := false, false
+		for _, b := range f.Blocks {
+			if len(b.Instrs) == 0 {
+				continue
+			}
+			iff, ok := b.Instrs[len(b.Instrs)-1].(*ssa.If)
+			if !ok {
+				continue
+			}
+			for si, sb := range b.Succs {
+				if len(sb.Instrs) == 0 {
+					continue
+				}
+				cm := canonCond(iff.Cond, si == 0)
+				reach := func() bool {
+					if isErrRet(sb.Instrs[0]) {
+						return true
+					}
+					q := PathQuery{P: p, Fn: f, Starts: []ssa.Instruction{iff}, EdgeOK: func(bb *ssa.BasicBlock, i int) bool { return bb != b || i == si }, Target: isErrRet,
+						Avoid: func(i ssa.Instruction) bool { return i == ssa.Instruction(iff) }}
+					return q.FindPath() != nil
+				}
+				if g.failed(cm) || g.failed(cm.Flip()) {
+					// directly after the failing edge: the error return, without passing another guard's failing return first
+					if len(sb.Instrs) > 0 {
+						direct := false
+						for cur := sb; cur != nil; {
+							retFound := false
+							for _, i2 := range cur.Instrs {
+								if isErrRet(i2) {
+									retFound = true
+								}
+							}
+							if retFound {
+								direct = true
+								break
+							}
+							if len(cur.Succs) == 1 {
+								cur = cur.Succs[0]
+							} else {
+								cur = nil
+							}
+						}
+						if direct {
+							found = true
+						}
+					}
+				}
+				if neg(g.failed)(cm) || neg(g.failed)(cm.Flip()) {
+					if reach() {
+						wrongSide = true
+					}
 				}
 			}
-		})
-		r.Check(found, fn, "answer "+g.errVar, p.Pos(f.Pos()), "returned on the failing branch of the "+g.name+" check", g.errVar+" is not returned when the "+g.name+" check fails")
+		}
+		r.Check(found && !wrongSide, fn, "answer "+g.errVar, p.Pos(f.Pos()), "returned on the failing branch of the "+g.name+" check and nowhere after it passed", g.errVar+" is not returned exactly when the "+g.name+" check fails")
 	}
 	// Commit of a finished transaction
 	cf := a.commit
